@@ -114,7 +114,12 @@ def gen_h5(rng):
         return e
 
     def html(depth):
-        e = E(rng.choice(['p', 'a', 'div', 'title', 'span']))
+        e = E(rng.choice(['p', 'a', 'div', 'title', 'span', 'input', 'option']))
+        if e.name == 'input':
+            e.attrs.update({'type': rng.choice(['checkbox', 'radio', 'text']), 'checked': ''} if rng.random() < .7 else {'disabled': ''})
+            return e
+        if e.name == 'option' and rng.random() < .6:
+            e.attrs['selected'] = ''
         if rng.random() < .4:
             e.attrs['href'] = rng.choice(['x', 'y'])
         if rng.random() < .3:
@@ -127,12 +132,20 @@ def gen_h5(rng):
     return E('html', {}, [E('head', {}, [E('title', {}, [T('text', 't')])]), body])
 
 
+PCS = ['checked', 'link', 'any-link', 'disabled', 'enabled', 'required', 'optional', 'read-only', 'default']
+
+
+def pc_ext(ref, e, p):
+    return False if not ref.is_html else None          # not modelled here: only the reference-free law applies
+
+
 def _cfg(prefixes, aprefixes, names, anames, default_in_map):
     return sels.Cfg(names=names, attrs=anames, vals=['x', 'y', 'x y', ''], ids=['x'], classes=['x'], tag_prefixes=prefixes,
                     attr_prefixes=aprefixes, p_tag=.6 if not default_in_map else .75, p_star=.2, p_id=0, p_class=.2, p_attr=.45,
                     p_struct=.08, p_more=.35, p_logical=.3, flags=[None],
                     extra=[(.06, lambda r, d: ('nth', 'nth-child', r.choice([0, 2]), 1,
-                                               [[{'tag': (r.choice(prefixes), r.choice(names))}]], None))])
+                                               [[{'tag': (r.choice(prefixes), r.choice(names))}]], None)),
+                           (.12, lambda r, d: ('pc', r.choice(PCS)))])
 
 
 def run_unit(u):
@@ -162,7 +175,7 @@ def run_unit(u):
         for mi in rng.sample(range(len(maps)), 4):
             nsmap = maps[mi]
             try:
-                case = cases.Case([root], how, ['doc'] if rng.random() < .7 else ['el', rng.randrange(1000)], nsmap=nsmap)
+                case = cases.Case([root], how, ['doc'] if rng.random() < .7 else ['el', rng.randrange(1000)], nsmap=nsmap, ext={'pc': pc_ext})
             except Exception:  # noqa: BLE001
                 bump('materialise_failed')
                 continue
@@ -172,10 +185,12 @@ def run_unit(u):
             cfg = _cfg(pf, apf, names, anames, bool(nsmap) and '' in nsmap)
             for _s in range(6):
                 ast = sels.gen_list(rng, rng.choice([0, 1, 1, 2]), cfg)
-                st, info = cases.compare_select(sv, case, ast)
+                st, info = cases.compare_select(sv, case, ast, match_law=True)
                 res['evals'] += 1
                 bump('how:' + how)
                 bump('map:%d' % mi)
+                if info.get('match_law_checked'):
+                    bump('match_law_checked')
                 if st == 'unspec':
                     bump('unspecified')
                     continue
@@ -192,12 +207,12 @@ def run_unit(u):
                     target = case.target
 
                     def fails(tops, a, how=how, target=target, nsmap=nsmap, st=st):
-                        c2 = cases.Case(tops, how, target, nsmap=nsmap)
-                        return cases.compare_select(sv, c2, a)[0] == st
+                        c2 = cases.Case(tops, how, target, nsmap=nsmap, ext={'pc': pc_ext})
+                        return cases.compare_select(sv, c2, a, match_law=True)[0] == st
                     try:
                         stops, sast = shrink.shrink([root], ast, fails, budget=250)
-                        scase = cases.Case(stops, how, target, nsmap=nsmap)
-                        sst, sinfo = cases.compare_select(sv, scase, sast)
+                        scase = cases.Case(stops, how, target, nsmap=nsmap, ext={'pc': pc_ext})
+                        sst, sinfo = cases.compare_select(sv, scase, sast, match_law=True)
                         if sst != st:
                             scase, sast, sinfo = case, ast, info
                     except Exception:  # noqa: BLE001
@@ -212,8 +227,8 @@ def run_unit(u):
 def replay(w):
     import soupsieve as sv
     tops = cases.rebuild(w)
-    case = cases.Case(tops, w['how'], w['target'], nsmap=w.get('nsmap'))
-    st, info = cases.compare_select(sv, case, w['ast'], w.get('selector'))
+    case = cases.Case(tops, w['how'], w['target'], nsmap=w.get('nsmap'), ext={'pc': pc_ext})
+    st, info = cases.compare_select(sv, case, w['ast'], w.get('selector'), match_law=True)
     if st in ('agree', 'unspec'):
         return None
     return dict(w, status_now=st, observed=info)
